@@ -1,0 +1,15 @@
+//go:build verif
+
+package conversion
+
+// Exported wrappers around the portable (safe) float32 slice codecs, which are
+// otherwise only selected on big-endian machines. Only compiled with the verif
+// build tag.
+
+func VerifFloat32ToBytesSafe(f []float32) []byte {
+	return float32ToBytesSafe(f)
+}
+
+func VerifBytesToFloat32Safe(b []byte) []float32 {
+	return bytesToFloat32Safe(b)
+}
